@@ -27,6 +27,20 @@ def kind(sub, E):
     return 'pair'
 
 
+def plain_type(node):
+    """Class of a node, looking through the dynamically created Edited<Class> wrappers of TreeNode.make_edited()."""
+    from graphtage.tree import EditedTreeNode
+    t = type(node)
+    if isinstance(node, EditedTreeNode) and len(t.__bases__) == 2 and t.__bases__[0] is EditedTreeNode:
+        return t.__bases__[1]
+    return t
+
+
+def edited(node):
+    """The edited deep copy that TreeNode.diff() works on (so checks can follow the same path as diff())."""
+    return node.make_edited()
+
+
 def ordered(node, graphtage):
     from graphtage.xml import XMLElement
     if isinstance(node, (graphtage.MultiSetNode, graphtage.FixedKeyDictNode)):
@@ -129,7 +143,7 @@ def check_options(edit, from_node, to_node, subs, F, T, opt, fails, path, grapht
                 if k in tk and paired.get(k) != k:
                     fails.append({'what': f"{path}: key {k!r} is present in both mappings but is paired with {paired.get(k)!r}",
                                   'class': 'c10-common-key-not-self-paired'})
-    if type(from_node) is graphtage.ListNode and type(to_node) is graphtage.ListNode:
+    if plain_type(from_node) is graphtage.ListNode and plain_type(to_node) is graphtage.ListNode:
         positional = (not opt['allow_list_edits']) or (len(F) == len(T) and not opt['allow_list_edits_when_same_length'])
         if positional and F != T:
             k = min(len(F), len(T))
